@@ -49,7 +49,7 @@ theorem storedBehind_reachable {voters : List Id} {c0 c : Cluster} (h : Setting 
   obtain ⟨hsorted, hnz, hne, hinit, hreach⟩ := h
   induction hreach generalizing n rn with
   | init =>
-    obtain ⟨_, cfg, draws, _, _, _, _, happ, hnew⟩ := hinit.2 n rn hn
+    obtain ⟨_, cfg, draws, _, _, _, happ, hnew⟩ := hinit.2 n rn hn
     obtain ⟨_, _, hsto, _, _⟩ := init_extra hsorted hnz happ hnew
     have e : storedHS rn = {} := by unfold storedHS; rw [hsto]; rfl
     unfold StoredBehind
